@@ -1,5 +1,6 @@
 import MgpuModel.Util
 import MgpuModel.C10Buddy
+import MgpuModel.C10BuddyX
 /-!
 # C10 — device memory management (driver/internal allocator, Distribute, Context.buffers)
 
@@ -484,6 +485,46 @@ def initState (ps cpu : Nat) (gpus : List Nat) : State :=
                       mirror := [], npages := [], pt := [], ctxs := [], npid := 0 }
   gpus.foldl (fun s g => registerDevice s .gpu g []) (registerDevice s0 .cpu cpu [])
 
+/-! ## conservation of physical pages (derived quantities: not part of `dump`, no effect on `step`) -/
+
+/-- every physical page start of the devices, as `RegisterDevice` queued them (Build + RegisterGPU list) -/
+def allPages (ps cpu : Nat) (gpus : List Nat) : List Nat := (initState ps cpu gpus).pool.frees.flatten
+
+/-- the physical pages mapped by the page table -/
+def livePages (s : State) : List Nat := s.pt.map (·.paddr)
+
+/-- physical pages of `all` that are neither on a free list nor mapped: lost to the allocator -/
+def lostPages (all : List Nat) (s : State) : List Nat :=
+  all.filter fun p => !(s.pool.frees.flatten.contains p) && !((livePages s).contains p)
+
+/-- the number of virtual pages an operation re-homes when it succeeds: a fresh physical page is taken for a
+virtual page whose page-table entry is overwritten in place (`pageTable.Update`), the page it was mapped to is
+neither returned to a free list nor remembered anywhere -/
+def rehomed (s : State) : Op → Nat
+  | .remap _ addr bytes _ => (remapVAddrs s.ps addr bytes).length
+  | .dist _ addr bytes ids =>
+    if ids.length = 1 then 0
+    else ((distPlan s.ps addr bytes ids.length).map fun r => (remapVAddrs s.ps r.1 r.2.1).length).sum
+  | .mig _ _ _ => 1
+  | .apg _ _ _ _ => 1
+  | _ => 0
+
+/-- `run` with a ghost counter: the number of virtual pages re-homed so far -/
+def runR : State → Nat → List Op → Except Fault (State × Nat)
+  | s, k, [] => .ok (s, k)
+  | s, k, op :: ops =>
+    match step s op with
+    | .error e => .error e
+    | .ok (_, s') => runR s' (k + rehomed s op) ops
+
+/-- an operation that never re-homes a page -/
+def Op.noRehome : Op → Bool
+  | .remap _ _ _ _ => false
+  | .dist _ _ _ _ => false
+  | .mig _ _ _ => false
+  | .apg _ _ _ _ => false
+  | _ => true
+
 /-! ## line protocol -/
 
 def flg (b : Bool) (c : String) : String := if b then c else "-"
@@ -550,13 +591,46 @@ def runTrace (verbose : Bool) : State → List (List String) → List String →
         let o := if verbose then r.str ++ " " ++ d else r.str ++ " #" ++ toHex (fnvStr d)
         runTrace verbose s' ts (o :: acc) d
 
+/-- `c10 lost l2= cpu= gpus= ; op ; …` lines: after every step the ghost counter of re-homed pages and the
+physical pages that are neither free nor mapped -/
+def runLost (all : List Nat) : State → Nat → List (List String) → List String → List String
+  | _, _, [], acc => acc.reverse
+  | s, k, t :: ts, acc =>
+    match parseOp t with
+    | none => ("bad-op" :: acc).reverse
+    | some op =>
+      match step s op with
+      | .error e => (e.str :: acc).reverse
+      | .ok (_, s') =>
+        let k' := k + rehomed s op
+        runLost all s' k' ts (s!"k={k'} lost={joinWith "," ((lostPages all s').map toHex)}" :: acc)
+
+def handleLost (first : String) (rest : List String) : String :=
+  let t := words first
+  match kvNat? t "l2", kvNat? t "cpu", (kv? t "gpus").bind idList? with
+  | some l2, some cpu, some gpus =>
+    let ps := 2 ^ l2
+    let s0 := initState ps (cpu * ps) (gpus.map (· * ps))
+    joinWith " ; " (runLost (allPages ps (cpu * ps) (gpus.map (· * ps))) s0 0 (rest.map words) [])
+  | _, _, _ => "bad"
+
+/-- `c10 reg l2= cpub=<hex bytes> gpub=<hex bytes>,…`: Build + RegisterGPU with sizes given in BYTES (not
+necessarily page multiples): the dump of the devices and their free lists -/
+def handleReg (first : String) : String :=
+  let t := words first
+  match kvNat? t "l2", kvHex? t "cpub", (kv? t "gpub").bind Buddy.hexList? with
+  | some l2, some cpu, some gpus => dump (initState (2 ^ l2) cpu gpus)
+  | _, _, _ => "bad"
+
 def handle (line : String) : String :=
   match splitTrim line ";" with
   | [] => "bad"
   | first :: rest =>
     let t := words first
     -- `c10 buddy …` lines: the buddy allocator's own model (MgpuModel/C10Buddy.lean)
-    if t.getD 1 "" == "buddy" then Buddy.handle line else
+    if t.getD 1 "" == "buddy" then (if kvNat? t "x" == some 1 then Buddy.handleX line else Buddy.handle line) else
+    if t.getD 1 "" == "lost" then handleLost first rest else
+    if t.getD 1 "" == "reg" then handleReg first else
     match kvNat? t "l2", kvNat? t "cpu", (kv? t "gpus").bind idList?, kvNat? t "v" with
     | some l2, some cpu, some gpus, some v =>
       let ps := 2 ^ l2
